@@ -1,45 +1,372 @@
 package interp
 
-// Goroutines. Sequential mode: one goroutine; blocking is a deadlock.
-// Concurrent mode (see conc.go) replaces these hooks.
+// Goroutines.
+//
+// Sequential mode (no `go` statement executed on the path): one goroutine; blocking is a
+// deadlock; the hooks below are no-ops.
+//
+// Concurrent mode starts with the first `go` statement (or a call of the concurrent()
+// intrinsic). Every target goroutine runs on its own Go goroutine, but only the one holding
+// the baton executes: control changes hands exclusively at scheduling points, which are the
+// synchronisation operations (mutex, once, atomic, sync.Map, WaitGroup, spawn, goroutine end).
+// At each such point the next goroutine is a *decision of the path* (a named, bounded
+// nondeterministic integer "sched", case-split through the solver like every other small-domain
+// variable), so every interleaving of synchronisation operations within the preemption bound
+// is explored, and a violating interleaving is part of the reported model.
+//
+// A vector-clock happens-before monitor watches every load and store of a heap cell the
+// target code performs and reports two conflicting accesses that are not ordered by the
+// happens-before edges of the Go memory model (unlock->lock, once completion->Do return,
+// atomic store->load, WaitGroup Done->Wait, go statement->goroutine start).
 
 import (
+	"fmt"
 	"go/token"
+	"go/types"
+	"reflect"
+	"strings"
+	"sync"
 
 	"golang.org/x/tools/go/ssa"
 )
 
-type gthread struct {
-	id int
-	vc []int
+type vclock []int
+
+func (v vclock) get(t int) int {
+	if t < len(v) {
+		return v[t]
+	}
+	return 0
 }
 
-type scheduler struct{}
+func (v *vclock) set(t, c int) {
+	for len(*v) <= t {
+		*v = append(*v, 0)
+	}
+	(*v)[t] = c
+}
+
+func (v *vclock) join(o vclock) {
+	for t, c := range o {
+		if c > v.get(t) {
+			v.set(t, c)
+		}
+	}
+}
+
+func (v vclock) clone() vclock { return append(vclock(nil), v...) }
+
+type gthread struct {
+	id      int
+	vc      vclock
+	wake    chan struct{}
+	started bool
+	done    bool
+	ready   func() bool // non-nil while blocked
+	what    string
+	fn      value
+	args    []value
+	pos     token.Pos
+}
+
+type syncClock struct{ w, r vclock }
+
+type accessInfo struct {
+	tid int
+	clk int
+	pos string
+}
+
+type cellHistory struct {
+	write accessInfo // clk 0: never written (in concurrent mode)
+	reads []accessInfo
+}
+
+type wgState struct{ n int }
+
+type scheduler struct {
+	i          *interpreter
+	threads    []*gthread
+	cur        *gthread
+	dead       bool
+	crash      interface{}
+	real       sync.WaitGroup
+	clocks     map[*value]*syncClock
+	cells      map[*value]*cellHistory
+	wgs        map[*value]*wgState
+	preempt    int
+	maxPreempt int
+	raced      map[string]bool
+	maps       map[interface{}]*value
+	points     int
+}
+
+func (i *interpreter) ensureSched(maxPreempt int) *scheduler {
+	if i.sched == nil {
+		s := &scheduler{i: i, clocks: map[*value]*syncClock{}, cells: map[*value]*cellHistory{}, wgs: map[*value]*wgState{}, maxPreempt: maxPreempt, raced: map[string]bool{}}
+		main := &gthread{id: 0, wake: make(chan struct{}, 1), started: true}
+		main.vc.set(0, 1)
+		s.threads = []*gthread{main}
+		s.cur = main
+		i.sched = s
+	}
+	return i.sched
+}
 
 func (i *interpreter) runMain(fn *ssa.Function) {
+	defer func() {
+		if s := i.sched; s != nil {
+			r := recover()
+			s.shutdown()
+			if r != nil {
+				panic(r)
+			}
+		}
+	}()
 	call(i, nil, token.NoPos, fn, nil)
 }
 
-func (i *interpreter) syncPoint(fr *frame, what string) {}
+// shutdown ends every goroutine that is still parked; called on the main goroutine.
+func (s *scheduler) shutdown() {
+	s.dead = true
+	for _, t := range s.threads[1:] {
+		if t.started && !t.done {
+			t.done = true
+			t.wake <- struct{}{}
+		}
+	}
+	s.real.Wait()
+}
+
+type killedPanic struct{}
+
+func (s *scheduler) runnable(except *gthread) []*gthread {
+	var out []*gthread
+	for _, t := range s.threads {
+		if t == except || t.done {
+			continue
+		}
+		if t.ready != nil && !t.ready() {
+			continue
+		}
+		out = append(out, t)
+	}
+	return out
+}
+
+// pick is one scheduling decision among n alternatives.
+func (s *scheduler) pick(n int) int {
+	if n <= 1 {
+		return 0
+	}
+	s.points++
+	return s.i.chooseNamed("sched", n)
+}
+
+// switchTo hands the baton to next and parks the calling goroutine until it is chosen again.
+func (s *scheduler) switchTo(next *gthread) {
+	me := s.cur
+	if next == me {
+		return
+	}
+	s.cur = next
+	s.resume(next)
+	s.park(me)
+}
+
+func (s *scheduler) resume(t *gthread) {
+	if !t.started {
+		t.started = true
+		s.real.Add(1)
+		go s.runThread(t)
+	} else {
+		t.wake <- struct{}{}
+	}
+}
+
+func (s *scheduler) park(me *gthread) {
+	<-me.wake
+	if s.dead {
+		if me.id == 0 {
+			c := s.crash
+			s.crash = nil
+			if c == nil {
+				c = pathAbort{EndUnsupported, "scheduler: main goroutine woken after shutdown"}
+			}
+			panic(c)
+		}
+		panic(killedPanic{})
+	}
+}
+
+// fatal is called on a goroutine other than main when the path must end: the reason is
+// re-raised on the main goroutine.
+func (s *scheduler) fatal(r interface{}) {
+	s.crash = r
+	s.dead = true
+	s.threads[0].wake <- struct{}{}
+}
+
+func (s *scheduler) runThread(t *gthread) {
+	defer s.real.Done()
+	defer func() {
+		r := recover()
+		if _, ok := r.(killedPanic); ok || (s.dead && s.cur != t) {
+			return
+		}
+		t.done = true
+		if pv, ok := r.(*panicVal); ok {
+			if _, ok := pv.v.(goexitPanic); ok {
+				r = nil
+			}
+		}
+		if pv, ok := r.(*panicVal); ok {
+			// an uncaught panic in a goroutine crashes the program
+			e := s.i.ex
+			msg := describePanic(pv.v)
+			v := Violation{Msg: "uncaught panic in goroutine: " + msg, Decisions: len(e.decisions)}
+			for _, se := range pv.stack {
+				v.Trace = append(v.Trace, s.i.shared.entryString(se))
+			}
+			if e.concrete != nil {
+				v.Model, v.Confirmed = e.concrete, true
+			} else if e.solver != nil && e.solver.Check() == Sat {
+				v.Model, v.Kinds = e.model()
+			}
+			e.res.Obligations++
+			e.res.Violations = append(e.res.Violations, v)
+			r = pathAbort{EndPanic, msg}
+		}
+		if r != nil {
+			s.fatal(r)
+			return
+		}
+		func() {
+			defer func() {
+				if r2 := recover(); r2 != nil {
+					s.fatal(r2)
+				}
+			}()
+			s.threadExit(t)
+		}()
+	}()
+	call(s.i, nil, t.pos, t.fn, t.args)
+}
+
+// threadExit passes the baton on when a goroutine's function returned.
+func (s *scheduler) threadExit(t *gthread) {
+	run := s.runnable(t)
+	if len(run) == 0 {
+		s.deadlock("every remaining goroutine is blocked after goroutine " + fmt.Sprint(t.id) + " ended")
+	}
+	next := run[s.pick(len(run))]
+	s.cur = next
+	s.resume(next)
+}
+
+func (s *scheduler) deadlock(what string) {
+	e := s.i.ex
+	e.res.Obligations++
+	v := Violation{Msg: "deadlock: " + what, Decisions: len(e.decisions)}
+	if e.concrete != nil {
+		v.Model, v.Confirmed = e.concrete, true
+	} else if e.solver.Check() == Sat {
+		v.Model, v.Kinds = e.model()
+	}
+	e.res.Violations = append(e.res.Violations, v)
+	e.abort(EndStopped, "deadlock")
+}
+
+func (i *interpreter) syncPoint(fr *frame, what string) {
+	s := i.sched
+	if s == nil || len(s.threads) == 1 {
+		return
+	}
+	run := s.runnable(s.cur)
+	if len(run) == 0 || s.preempt >= s.maxPreempt {
+		return
+	}
+	k := s.pick(len(run) + 1)
+	if k == 0 {
+		return
+	}
+	s.preempt++
+	s.switchTo(run[k-1])
+}
 
 func (i *interpreter) blockOn(fr *frame, ready func() bool, what string) {
 	if ready() {
 		return
 	}
-	i.ex.res.Obligations++
-	v := Violation{Msg: "deadlock: " + what + " blocks forever (sequential execution)", Decisions: len(i.ex.decisions)}
-	if i.ex.concrete != nil {
-		v.Model, v.Confirmed = i.ex.concrete, true
-	} else if i.ex.solver.Check() == Sat {
-		v.Model, v.Kinds = i.ex.model()
+	s := i.sched
+	if s == nil || len(s.threads) == 1 {
+		i.ex.res.Obligations++
+		v := Violation{Msg: "deadlock: " + what + " blocks forever (sequential execution)", Decisions: len(i.ex.decisions)}
+		if i.ex.concrete != nil {
+			v.Model, v.Confirmed = i.ex.concrete, true
+		} else if i.ex.solver.Check() == Sat {
+			v.Model, v.Kinds = i.ex.model()
+		}
+		i.ex.res.Violations = append(i.ex.res.Violations, v)
+		i.ex.abort(EndStopped, "deadlock")
 	}
-	i.ex.res.Violations = append(i.ex.res.Violations, v)
-	i.ex.abort(EndStopped, "deadlock")
+	me := s.cur
+	me.ready, me.what = ready, what
+	for !ready() {
+		run := s.runnable(me)
+		if len(run) == 0 {
+			s.deadlock(what + " blocks forever: no goroutine can make progress")
+		}
+		s.switchTo(run[s.pick(len(run))])
+	}
+	me.ready = nil
 }
 
-func (i *interpreter) hbAcquire(fr *frame, obj value)       {}
-func (i *interpreter) hbRelease(fr *frame, obj value)       {}
-func (i *interpreter) hbReleaseShared(fr *frame, obj value) {}
+func (s *scheduler) clockOf(obj value) *syncClock {
+	p, _ := obj.(*value)
+	c := s.clocks[p]
+	if c == nil {
+		c = &syncClock{}
+		s.clocks[p] = c
+	}
+	return c
+}
+
+func (s *scheduler) tick() {
+	t := s.cur
+	t.vc.set(t.id, t.vc.get(t.id)+1)
+}
+
+func (i *interpreter) hbAcquire(fr *frame, obj value) {
+	if s := i.sched; s != nil {
+		c := s.clockOf(obj)
+		s.cur.vc.join(c.w)
+		s.cur.vc.join(c.r)
+	}
+}
+
+// hbAcquireShared: a read lock is ordered after earlier write unlocks only.
+func (i *interpreter) hbAcquireShared(fr *frame, obj value) {
+	if s := i.sched; s != nil {
+		s.cur.vc.join(s.clockOf(obj).w)
+	}
+}
+
+func (i *interpreter) hbRelease(fr *frame, obj value) {
+	if s := i.sched; s != nil {
+		c := s.clockOf(obj)
+		c.w.join(s.cur.vc)
+		s.tick()
+	}
+}
+
+func (i *interpreter) hbReleaseShared(fr *frame, obj value) {
+	if s := i.sched; s != nil {
+		c := s.clockOf(obj)
+		c.r.join(s.cur.vc)
+		s.tick()
+	}
+}
 
 func (i *interpreter) onceRunning(p *value) bool { return i.onceRun[p] }
 func (i *interpreter) setOnceRunning(p *value, b bool) {
@@ -50,7 +377,241 @@ func (i *interpreter) setOnceRunning(p *value, b bool) {
 }
 
 func (i *interpreter) spawn(fr *frame, pos token.Pos, fn value, args []value) {
-	i.ex.unsupported("go statement in sequential mode")
+	s := i.ensureSched(2)
+	if len(s.threads) >= 8 {
+		i.ex.unsupported("more than 8 goroutines")
+	}
+	t := &gthread{id: len(s.threads), wake: make(chan struct{}, 1), fn: fn, args: args, pos: pos}
+	t.vc = s.cur.vc.clone()
+	t.vc.set(t.id, 1)
+	s.tick()
+	s.threads = append(s.threads, t)
+	i.syncPoint(fr, "go")
 }
 
-func (i *interpreter) memAccess(fr *frame, addr value, write bool) {}
+// memAccess is called for every load and store through a pointer the target code performs.
+func (i *interpreter) memAccess(fr *frame, addr value, write bool) {
+	s := i.sched
+	if s == nil || len(s.threads) == 1 {
+		return
+	}
+	p, ok := addr.(*value)
+	if !ok || p == nil {
+		return
+	}
+	if i.shared.isHarnessFn(fr.fn) {
+		return // the harness's own bookkeeping is not part of the code under test
+	}
+	s.access(fr, p, write, 0)
+}
+
+// isHarnessFn reports whether fn is defined in an injected harness file (zz_verif_*.go).
+func (sh *Shared) isHarnessFn(fn *ssa.Function) bool {
+	if v, ok := sh.harnessFn.Load(fn); ok {
+		return v.(bool)
+	}
+	f := fn
+	for f.Parent() != nil {
+		f = f.Parent()
+	}
+	if o := f.Origin(); o != nil {
+		f = o
+	}
+	h := false
+	if f.Pos() != token.NoPos {
+		h = strings.HasPrefix(shortFile(sh.prog.Fset.Position(f.Pos()).Filename), "zz_verif_")
+	}
+	sh.harnessFn.Store(fn, h)
+	return h
+}
+
+func (s *scheduler) access(fr *frame, p *value, write bool, depth int) {
+	switch v := (*p).(type) {
+	case structure:
+		if depth < 4 {
+			for j := range v {
+				s.access(fr, &v[j], write, depth+1)
+			}
+		}
+		return
+	case array:
+		if depth < 4 && len(v) <= 64 {
+			for j := range v {
+				s.access(fr, &v[j], write, depth+1)
+			}
+		}
+		return
+	}
+	me := s.cur
+	h := s.cells[p]
+	if h == nil {
+		h = &cellHistory{}
+		s.cells[p] = h
+	}
+	var pos string
+	here := func() string {
+		if pos == "" {
+			pos = s.i.describePos(fr)
+		}
+		return pos
+	}
+	if w := h.write; w.clk != 0 && w.tid != me.id && w.clk > me.vc.get(w.tid) {
+		kind := "read"
+		if write {
+			kind = "write"
+		}
+		s.race(kind, here(), me.id, "write", w.pos, w.tid)
+	}
+	if write {
+		for _, r := range h.reads {
+			if r.tid != me.id && r.clk > me.vc.get(r.tid) {
+				s.race("write", here(), me.id, "read", r.pos, r.tid)
+			}
+		}
+		h.write = accessInfo{me.id, me.vc.get(me.id), here()}
+		h.reads = h.reads[:0]
+		return
+	}
+	for k := range h.reads {
+		if h.reads[k].tid == me.id {
+			h.reads[k].clk = me.vc.get(me.id)
+			return
+		}
+	}
+	h.reads = append(h.reads, accessInfo{me.id, me.vc.get(me.id), here()})
+}
+
+// mapAccess treats a map as one memory location.
+func (i *interpreter) mapAccess(fr *frame, m value, write bool) {
+	s := i.sched
+	if s == nil || len(s.threads) == 1 || i.shared.isHarnessFn(fr.fn) {
+		return
+	}
+	var key *value
+	switch m := m.(type) {
+	case *hashmap:
+		if m == nil {
+			return
+		}
+		key = s.mapCell(m)
+	case map[value]value:
+		if m == nil {
+			return
+		}
+		key = s.mapCell(reflect.ValueOf(m).Pointer())
+	default:
+		return
+	}
+	s.access(fr, key, write, 9)
+}
+
+func (s *scheduler) mapCell(id interface{}) *value {
+	if s.maps == nil {
+		s.maps = map[interface{}]*value{}
+	}
+	c := s.maps[id]
+	if c == nil {
+		var v value = "map"
+		c = &v
+		s.maps[id] = c
+	}
+	return c
+}
+
+func (i *interpreter) describePos(fr *frame) string {
+	p := i.prog.Fset.Position(fr.pos())
+	return fmt.Sprintf("%s (%s:%d)", fr.fn.String(), shortFile(p.Filename), p.Line)
+}
+
+func (s *scheduler) race(kind1, pos1 string, t1 int, kind2, pos2 string, t2 int) {
+	// canonical order so that the message does not depend on which side ran first
+	a := kind1 + " in " + pos1
+	b := kind2 + " in " + pos2
+	if b < a {
+		a, b = b, a
+	}
+	msg := "data race: " + a + " is not ordered with " + b
+	if s.raced[msg] {
+		return
+	}
+	s.raced[msg] = true
+	e := s.i.ex
+	e.res.Obligations++
+	v := Violation{Msg: msg, Decisions: len(e.decisions)}
+	if e.concrete != nil {
+		v.Model, v.Confirmed = e.concrete, true
+	} else if e.solver.Check() == Sat {
+		v.Model, v.Kinds = e.model()
+	}
+	e.res.Violations = append(e.res.Violations, v)
+}
+
+// chooseNamed is the "choose" intrinsic: a named nondeterministic integer in [0,n),
+// case-split into separate paths.
+func (i *interpreter) chooseNamed(name string, n int) int {
+	e := i.ex
+	name = e.nondetName(name)
+	if e.concrete != nil {
+		v := int(e.concrete[name])
+		if v < 0 || v >= n {
+			e.abort(EndAssume, "choose out of range")
+		}
+		return v
+	}
+	// the domain is known exactly, so the case split needs no solver call: fork the n-1
+	// alternatives directly and bind the variable on each path (the model then carries it)
+	t := e.pool.Var(name, bvSort(64))
+	e.nondets = append(e.nondets, NondetRec{name, "Int", t})
+	v := e.Choose(n)
+	e.addPC(e.pool.Eq(t, e.pool.BV(uint64(v), 64)))
+	return v
+}
+
+func registerSchedStubs(sh *Shared) {
+	reg := func(name string, f externalFn) { sh.ext[name] = f }
+	// concurrent(p): enter concurrent mode with at most p preemptive context switches per path
+	reg(mainPath+".concurrent", func(fr *frame, args []value) value {
+		s := fr.i.ensureSched(int(asInt64(fr.i.concretizeInt(args[0]))))
+		s.maxPreempt = int(asInt64(fr.i.concretizeInt(args[0])))
+		return nil
+	})
+	reg(mainPath+".concRounds", func(fr *frame, args []value) value { return 1 })
+	for _, n := range []string{"barrierReset", "barrierWait", "barrierOpen", "hLock", "hUnlock"} {
+		reg(mainPath+"."+n, func(fr *frame, args []value) value { return nil })
+	}
+	wg := func(fr *frame, p value) *wgState {
+		s := fr.i.ensureSched(2)
+		ptr := p.(*value)
+		w := s.wgs[ptr]
+		if w == nil {
+			w = &wgState{}
+			s.wgs[ptr] = w
+		}
+		return w
+	}
+	reg("(*sync.WaitGroup).Add", func(fr *frame, args []value) value {
+		w := wg(fr, args[0])
+		w.n += int(asInt64(args[1]))
+		if w.n < 0 {
+			panic(targetPanic{iface{types.Typ[types.String], "sync: negative WaitGroup counter"}})
+		}
+		fr.i.hbRelease(fr, args[0])
+		return nil
+	})
+	reg("(*sync.WaitGroup).Done", func(fr *frame, args []value) value {
+		w := wg(fr, args[0])
+		w.n--
+		if w.n < 0 {
+			panic(targetPanic{iface{types.Typ[types.String], "sync: negative WaitGroup counter"}})
+		}
+		fr.i.hbRelease(fr, args[0])
+		return nil
+	})
+	reg("(*sync.WaitGroup).Wait", func(fr *frame, args []value) value {
+		w := wg(fr, args[0])
+		fr.i.syncPoint(fr, "wg-wait")
+		fr.i.blockOn(fr, func() bool { return w.n == 0 }, "WaitGroup.Wait")
+		fr.i.hbAcquire(fr, args[0])
+		return nil
+	})
+}
